@@ -67,6 +67,7 @@ PROPS = {
             "(4) Handler::run (src/net/server.rs, verified verbatim after R-select and R-mut-self): for an input that consists of exactly N well-formed requests, in whatever segmentation the stream shim delivers it, an Ok exit has written exactly replies(first `served` requests) in order, nothing else, and changed the map accordingly (C06.run.pairing); served == N when the loop ended because the client closed the stream (C06.run.all_answered_at_clean_end) and served < N only if the shutdown signal had been received (C06.run.no_early_stop); the loop terminates (decreases N - served). theorem_pipeline (C06.pipeline, pure lemma) ties this to commands: the wire image of any list of well-formed commands is such an input and the frame-by-frame replies equal the command-level replies_of / map_of",
             "R-select reads tokio::select! as a nondeterministic choice of ONE arm whose future runs to completion (a polled-then-dropped read_frame is not modelled; in Handler::run the other arm returns, so nothing it did is observable); Shutdown is a shim with a ghost flag fired(); Listener / Server (accept loop, connection limit, shutdown hand-shake) are not extracted",
             "an input with trailing garbage or a malformed request is outside the precondition: run returns Err at the first bad frame (not claimed)",
+            "client side: `impl From<Get/Set/Del> for Frame` (the request frames src/net/client.rs sends) are verified to build exactly req_frame(cmd), the request frame theorem_pipeline is stated over (C06.client.*); the three Client methods themselves (write the frame, read one reply, map it to the return type) are not extracted (anyhow! macro, iterator adapters)",
             "an operation of the storage engine that fails ends the connection (apply returns Err before writing a reply); replies after a failed engine call are not specified",
             "termination of the key-collecting loop in `impl TryFrom<Parser> for Del` is not proved (exec_allows_no_decreases_clause): vstd's termination measure for vec::IntoIter needs a precondition that a trait method cannot declare",
             "in unit cmd the contracts of frame.rs and connection.rs are assumed (R-stub-body) because they are verified in units resp and net, which this check also runs",
